@@ -2,10 +2,11 @@
   C14 — the command line is a faithful wrapper.  Theorems about `Cli.run`, the model of
   cli/cli.go `Run` (compared with the real binary on every correspondence run): exit status and
   diagnostics, -o FILE versus -o -, stdin as a file named <stdin>, -f versus the inline
-  program, argument order.  `-r E` ≡ `BEGINFILE { $ = E }` is covered by the correspondence
-  run (metamorphic relation on the binary), not by a theorem.
+  program, argument order; and `-r E` ≡ `BEGINFILE { $ = E }` (sections "-r E …" below; proofs
+  in Lemmas/Selector*.lean).
 -/
 import Jqawk.Model.Cli
+import Jqawk.Lemmas.SelectorRun
 
 namespace Jqawk.C14
 open Jqawk Cli
@@ -172,4 +173,247 @@ theorem selectors_order (a b : Bytes) (prog : Bytes) (hprog : flagLike prog = fa
   rw [parseFlags_r, parseFlags_r]
   exact parseFlags_stops _ prog [] _ hprog
 
+
+/-! ## `-r E` behaves as `BEGINFILE { $ = E }`
+
+The selector is evaluated by a nested evaluator (`evalSelector`) on its own conversion of the
+decoded value, and its result is copied into a fresh root cell; the rule is evaluated by the main
+evaluator and assigns to the existing `$` cell.  The two runs therefore differ in the ids of their
+cells (run A has the builtins of the nested evaluator, a root cell and the selector's temporaries
+in addition).  The comparison is a simulation up to an injective renaming of cell ids
+(`Sel.allSim`: no evaluator function sees cell ids), re-established after every decoded value
+(`Sel.junction`) and carried through the whole run (`Sel.runProgram_rel`).
+
+Statements are about ASTs: run A is `runProgram prog src tbl [sel] files`, run B is
+`runProgram (withSel prog T E) src tbl [] files` where `E` is what `sel` parses to and `withSel`
+puts the rule `BEGINFILE { $ = E }` (tokens `T`) in front of the rules of `prog`.  In a program
+*text* the tokens of `E` have other positions than in the selector text; positions only occur in
+reported runtime errors, which the relation below compares by class and message anyway. -/
+
+open Sel in
+/-- **Core lemma (every evaluator function, any program, any fuel on either side).**  Two runs
+    from states related by a renaming of cell ids (`SR`: heaps, frames, `$`, output) give related
+    results: both out of fuel (no claim), or both the same error / signal, or both a value, related
+    again — provided the code only looks up identifiers the context allows (`idsE`/`idsS`: all
+    of them for two main evaluators; `$` and allowed names when a nested selector evaluator, whose
+    frames hold the builtins only, is compared with the main evaluator; everything but `$` in
+    ENDFILE rules).  Settles: "a closed expression evaluates to the same value, with the same
+    output and the same error, in the nested evaluator of `-r` and in a rule of the program". -/
+theorem evaluator_ignores_cell_ids (nA nB : Nat) : Sel.AllSim nA nB := Sel.allSim nA nB
+
+open Sel in
+/-- **Expression level, observably**: in related states (e.g. the selector's nested evaluator
+    and the main evaluator in a rule, both with `$` bound to a fresh conversion of the same
+    value) an expression whose identifiers are allowed gives the same JSON rendering, the same
+    printed form, the same output and the same error.  `E` may call methods and builtins,
+    contain array / object literals, `match`, even assignments. -/
+theorem selector_expression_same_value {X : XCtx} (g : GoodX X) (E : Expr)
+    (hE : idsE X.allowD X.allow E = true) {sA sB : St} (hs : SR X sA sB) (nA nB : Nat) :
+    match evalExpr X.progA nA E sA, evalExpr X.progB nB E sB with
+    | .oof, _ => True
+    | .ok _ _, .oof => True
+    | .err _ _, .oof => True
+    | .ok a sA', .ok b sB' =>
+      toJValTop sA'.heap (sA'.heap.get a) = toJValTop sB'.heap (sB'.heap.get b) ∧
+      prettyTop sA'.heap (sA'.heap.get a) = prettyTop sB'.heap (sB'.heap.get b) ∧
+      sA'.output = sB'.output
+    | .err eA sA', .err eB sB' => eA = eB ∧ sA'.output = sB'.output
+    | .ok _ _, .err _ _ => False
+    | .err _ _, .ok _ _ => False := by
+  have h := (allSim nA nB).expr g sB.heap.cells.size E hE sA sB hs (Nat.le_refl _)
+  revert h
+  generalize evalExpr X.progA nA E sA = ra
+  generalize evalExpr X.progB nB E sB = rb
+  intro h
+  cases ra with
+  | oof => trivial
+  | ok a sA' =>
+    cases rb with
+    | oof => trivial
+    | err _ _ => exact h.elim
+    | ok b sB' =>
+      obtain ⟨_, hc, hs'⟩ := h
+      have hv := hs'.heap.get hc (Nat.le_refl _)
+      exact ⟨toJValTop_rel hs'.heap hv (Nat.le_refl _), prettyTop_rel hs'.heap hv (Nat.le_refl _), hs'.output⟩
+  | err eA sA' =>
+    cases rb with
+    | oof => trivial
+    | ok _ _ => exact h.elim
+    | err eB sB' => exact ⟨h.2.1, h.2.2.1.output⟩
+
+open Sel in
+/-- **One decoded value.**  From related main evaluators (`hs`), the selector (`evalSelector`)
+    and the conversion of the value followed by the rule `$ = E` (`ruleStep`) end alike
+    (`JRel`): the same error (class and message; position and text differ by construction), or
+    both succeed and the main evaluators are related again by a new renaming under which the
+    root cell of run A corresponds to the `$` cell of run B — so that everything the program does
+    afterwards with `$`, its members (sharing included) and `-o` is the same.  `E` is a
+    container-free selector (`selE`): `$`, literals, member / index steps, operators other than
+    assignment and `++`/`--`, `match` with expression bodies. -/
+theorem selector_step (prog : Program) (T : SelTok) (E : Expr) (hE : selE E = true) (tbl : RuleTable)
+    (sel : Bytes) (hparse : parseExpressionSrc tbl sel = .ok E) (v : JVal) {K : Ctx} (wf : K.WF)
+    (h0 : K.a0 = 0) (h0' : K.o0 = 0) (hKA : K.progA = prog) (hKB : K.progB = withSel prog T E)
+    {sA sB : St} (hs : SR (mainX K) sA sB) (hlen : sB.frames.length = 1) :
+    JRel prog (withSel prog T E) sel (evalSelector tbl sel v sA) (ruleStep (withSel prog T E) T E v sB) :=
+  junction prog T E hE tbl sel hparse v wf h0 h0' hKA hKB hs hlen
+
+open Sel in
+/-- **Whole runs: `-r E` behaves as `BEGINFILE { $ = E }`.**  For every program `prog` whose
+    ENDFILE rules (and, if it has any, the functions they might call) do not read `$`
+    (`EndOK`; BEGINFILE rules and pattern rules are unrestricted — they see the selected value in
+    both runs), every container-free selector `E`, all input files: unless one of the runs is out
+    of fuel,
+    * the outcome is of the same class with the same message (`OutcomeRel`: a runtime error in
+      the selector is reported against the selector text by run A, against the program text by
+      run B);
+    * the output is the same;
+    * on success `GetRootJson`, i.e. what `-o` writes, is the same.
+
+    Observed on the binary, outside the model (which abstracts messages): when the selected value
+    cannot be copied (`-r '$.s.length'`), Go's message ends in the tag of the *target* cell —
+    "cannot copy a nativefunction to a unknown" with `-r` (a fresh root cell), "… to a object"
+    with the rule (the `$` cell still holds the document); class, exit status and output agree. -/
+theorem r_behaves_as_beginfile_rule (tbl : RuleTable) (prog : Program) (T : SelTok) (E : Expr) (sel src : Bytes)
+    (files : List InputFile) (hparse : parseExpressionSrc tbl sel = .ok E) (hE : selE E = true)
+    (hend : EndOK prog) :
+    let rA := runProgram prog src tbl [sel] files
+    let rB := runProgram (withSel prog T E) src tbl [] files
+    rA.outcome = .oof ∨ rB.outcome = .oof ∨
+      (OutcomeRel sel src rA.outcome rB.outcome ∧ rA.out = rB.out ∧
+        (rA.outcome = .ok → rA.st.bind getRootJson = rB.st.bind getRootJson)) :=
+  runProgram_rel prog T E hE tbl sel hparse src hend files
+
+open Sel in
+/-- … and therefore the command line ends alike: same exit status, same standard output, a
+    diagnostic in the same cases, and `-o` writes the same bytes to the same file (or after the
+    output for `-o -`). -/
+theorem r_behaves_as_beginfile_rule_cli (tbl : RuleTable) (prog : Program) (T : SelTok) (E : Expr)
+    (sel src : Bytes) (files : List InputFile) (hparse : parseExpressionSrc tbl sel = .ok E)
+    (hE : selE E = true) (hend : EndOK prog) (fs : List Entry) (o : Opts) (n : Nat)
+    (hA : (runProgram prog src tbl [sel] files).outcome ≠ .oof)
+    (hB : (runProgram (withSel prog T E) src tbl [] files).outcome ≠ .oof) :
+    finish fs o n (runProgram prog src tbl [sel] files) =
+      finish fs o n (runProgram (withSel prog T E) src tbl [] files) := by
+  have h := r_behaves_as_beginfile_rule tbl prog T E sel src files hparse hE hend
+  rcases h with h | h | ⟨h1, h2, h3⟩
+  · exact absurd h hA
+  · exact absurd h hB
+  · revert h1 h2 h3 hA hB
+    generalize runProgram prog src tbl [sel] files = rA
+    generalize runProgram (withSel prog T E) src tbl [] files = rB
+    intro hA hB h1 h2 h3
+    unfold finish
+    cases hoA : rA.outcome <;> cases hoB : rB.outcome <;> rw [hoA, hoB] at h1 <;>
+      first
+        | exact h1.elim
+        | (simp only [h2]; done)
+        | (simp only [h2, h3 hoA]; done)
+        | rfl
+
+/-! ### non-vacuity, and what delimits the claim (all checked on the model; the same command
+lines were run on the binary) -/
+
+/-- decidable form of `Sel.EndOK` -/
+def endOKB (prog : Program) : Bool :=
+  (rulesOf prog .endFile).all (fun r => Sel.idsS false (fun _ => true) r.body) &&
+  ((rulesOf prog .endFile).isEmpty || prog.functions.all (fun f => Sel.idsS false (fun _ => true) f.body))
+
+theorem endOK_of_B (prog : Program) (h : endOKB prog = true) : Sel.EndOK prog := by
+  simp only [endOKB, Bool.and_eq_true, Bool.or_eq_true, List.all_eq_true, List.isEmpty_iff] at h
+  refine ⟨h.1, fun hne => ?_⟩
+  rcases h.2 with h2 | h2
+  · exact absurd h2 hne
+  · exact h2
+
+/-- what a user can observe of a run: class of the outcome and message, output, what `-o` writes -/
+def obs (r : RunResult) : (Nat × String) × Bytes × Option Bytes :=
+  ((match r.outcome with
+    | .ok => (0, "")
+    | .syntaxErr _ e => (1, e.msg)
+    | .runtimeErr _ _ m => (2, m)
+    | .jsonErr _ => (3, "")
+    | .sentinel _ => (4, "")
+    | .panic m => (5, m)
+    | .unmodelled w => (6, w)
+    | .oof => (7, "")), r.out, r.st.bind getRootJson)
+
+def doc1 : InputFile :=
+  ⟨b!"f", b!"{\"status\":\"ok\",\"result\":[{\"name\":\"a\"},{\"name\":\"b\"}],\"a\":{\"k\":1},\"s\":\"hello\",\"n\":3.7}", .eof⟩
+
+/-- the hypotheses of `r_behaves_as_beginfile_rule` hold for the README's example: the selector
+    `$.result` parses to a container-free selector, the program has no ENDFILE rule -/
+example : (match parseExpressionSrc expectedRuleTable b!"$.result" with
+      | .ok e => Sel.selE e | _ => false) = true ∧
+    (match parseProgramSrc expectedRuleTable b!"{ print $.name }" with
+      | .ok p => endOKB p | _ => false) = true := by decide +kernel
+
+/-- … also with operators, index steps, `match`, and an ENDFILE rule that does not read `$` -/
+example : (match parseExpressionSrc expectedRuleTable b!"match ($.n) { 3.7 => $.result[0].name + \"x\", y => $.a.k * 2 }" with
+      | .ok e => Sel.selE e | _ => false) = true ∧
+    (match parseProgramSrc expectedRuleTable b!"function f(x) { return x + 1 } { print f($) } ENDFILE { print \"end\" }" with
+      | .ok p => endOKB p | _ => false) = true := by decide +kernel
+
+/-- the README's pair of command lines, as texts: same outcome, output and `-o` document -/
+example : obs (evalProgram expectedRuleTable b!"{ print $.name }" [b!"$.result"] [doc1]) =
+    obs (evalProgram expectedRuleTable b!"BEGINFILE { $ = $.result } { print $.name }" [] [doc1]) := by
+  decide +kernel
+
+/-- sharing (clause c): the root selected by `-r '$.a'` and the `$` assigned by the rule are
+    both cells of their own sharing the object with the original document; a later `$.x = 1`
+    shows in what `-o` writes in the same way -/
+example : obs (evalProgram expectedRuleTable b!"{ $.x = 1 }" [b!"$.a"] [doc1]) =
+    obs (evalProgram expectedRuleTable b!"BEGINFILE { $ = $.a } { $.x = 1 }" [] [doc1]) ∧
+    (obs (evalProgram expectedRuleTable b!"{ $.x = 1 }" [b!"$.a"] [doc1])).2.2 =
+      some b!"{\n  \"k\": 1,\n  \"x\": 1\n}" := by
+  decide +kernel
+
+/-- a missing member (the repaired defect D45): the selected root is `null` in both runs and a
+    member cannot be created in it — the same runtime error -/
+example : obs (evalProgram expectedRuleTable b!"{ $.x = 1 }" [b!"$.missing"] [doc1]) =
+    obs (evalProgram expectedRuleTable b!"BEGINFILE { $ = $.missing } { $.x = 1 }" [] [doc1]) ∧
+    (obs (evalProgram expectedRuleTable b!"{ $.x = 1 }" [b!"$.missing"] [doc1])).1 =
+      (2, "could not create this object") := by
+  decide +kernel
+
+/-- a runtime error in the selector itself: same class and message (run A reports it against the
+    selector text, run B against the program text) -/
+example : obs (evalProgram expectedRuleTable b!"{ print $ }" [b!"$.n / 0"] [doc1]) =
+    obs (evalProgram expectedRuleTable b!"BEGINFILE { $ = $.n / 0 } { print $ }" [] [doc1]) ∧
+    (match (evalProgram expectedRuleTable b!"{ print $ }" [b!"$.n / 0"] [doc1]).outcome,
+           (evalProgram expectedRuleTable b!"BEGINFILE { $ = $.n / 0 } { print $ }" [] [doc1]).outcome with
+     | .runtimeErr sA pA _, .runtimeErr sB pB _ => sA == b!"$.n / 0" && pA == 4 && sB != sA && pB == 20
+     | _, _ => false) = true := by
+  decide +kernel
+
+/-- **delimits the claim (a)**: an identifier other than `$` is the program's global in the rule
+    and an unset local of the nested evaluator in the selector -/
+example : (obs (evalProgram expectedRuleTable b!"BEGIN { x = 5 } { print $ }" [b!"x"] [doc1])).2.1 = b!"<unknown>\n" ∧
+    (obs (evalProgram expectedRuleTable b!"BEGINFILE { $ = x } BEGIN { x = 5 } { print $ }" [] [doc1])).2.1 = b!"5\n" := by
+  decide +kernel
+
+/-- … `$file` exists in the main evaluator only -/
+example : (obs (evalProgram expectedRuleTable b!"{ print $ }" [b!"$file"] [doc1])).1 = (2, "unknown variable") ∧
+    (obs (evalProgram expectedRuleTable b!"BEGINFILE { $ = $file } { print $ }" [] [doc1])).2.1 = b!"f\n" := by
+  decide +kernel
+
+/-- … a builtin the program has rebound is the original builtin in the selector -/
+example : (obs (evalProgram expectedRuleTable b!"BEGIN { num = 5 } { print $ }" [b!"num(\"12\")"] [doc1])).2.1 = b!"12\n" ∧
+    (obs (evalProgram expectedRuleTable b!"BEGINFILE { $ = num(\"12\") } BEGIN { num = 5 } { print $ }" [] [doc1])).1 =
+      (2, "attempted to call a non-function") := by
+  decide +kernel
+
+/-- **delimits the claim**: `next` raised inside a selector (a `match` case with a statement
+    body) skips the root — no rule runs for it —, in the rule it just ends the rule, with `$`
+    unchanged -/
+example : (obs (evalProgram expectedRuleTable b!"{ print \"rule\" }" [b!"match ($) { x => { next } }"] [doc1])).2.1 = b!"" ∧
+    (obs (evalProgram expectedRuleTable b!"BEGINFILE { $ = match ($) { x => { next } } } { print \"rule\" }" [] [doc1])).2.1 =
+      b!"rule\n" := by
+  decide +kernel
+
+/-- **delimits the claim (the property's proviso)**: an ENDFILE rule that reads `$` sees the
+    document as it was before the BEGINFILE rules — the selected value with `-r`, the whole
+    document with the rule -/
+example : (obs (evalProgram expectedRuleTable b!"ENDFILE { print $ }" [b!"$.a"] [doc1])).2.1 = b!"{\"k\": 1}\n" ∧
+    (obs (evalProgram expectedRuleTable b!"BEGINFILE { $ = $.a } ENDFILE { print $ }" [] [doc1])).2.1 ≠ b!"{\"k\": 1}\n" := by
+  decide +kernel
 end Jqawk.C14
